@@ -225,16 +225,26 @@ Qed.
 
 (* ---------- C11: the reply to <resume/>, with the exact output ---------- *)
 Lemma other_reply_exact cfg c p f s sn :
-  f_sm f = true -> has_id p = true ->
+  f_sm f = true -> has_id p = true -> conn_lost s = false ->
   (forall rest, s <> SResumed (p_sm_id p) :: rest) -> (forall s1, s <> SFailed :: s1) ->
   step_resume cfg c p f s sn
   = ([o c (RResume (p_sm_id p) (p_inbound p)) sn], Err false false, clear_sm p).
 Proof.
-  intros Hf Hi Hr Hfl. unfold step_resume, has_id in *. rewrite Hf, Hi. cbn [andb].
-  destruct s as [|i s']; [reflexivity|]. destruct i; try reflexivity.
+  intros Hf Hi Hc Hr Hfl. unfold step_resume, has_id in *. rewrite Hf, Hi. cbn [andb].
+  destruct s as [|i s']; [discriminate|]. destruct i; try reflexivity; try discriminate.
   - destruct (str_eqb previd (p_sm_id p)) eqn:E; [|reflexivity].
     apply str_eqb_eq in E. subst. exfalso. eapply Hr. reflexivity.
   - exfalso. eapply Hfl. reflexivity.
+Qed.
+
+(* the connection goes away before any answer to <resume/> arrives *)
+Lemma unanswered_keeps cfg c p f s sn :
+  f_sm f = true -> has_id p = true -> conn_lost s = true ->
+  step_resume cfg c p f s sn
+  = ([o c (RResume (p_sm_id p) (p_inbound p)) sn], Err false false, p).
+Proof.
+  intros Hf Hi Hc. unfold step_resume, has_id in *. rewrite Hf, Hi. cbn [andb].
+  destruct s as [|i s']; [reflexivity|]. destruct i; try discriminate. reflexivity.
 Qed.
 
 Lemma refused_state cfg c p f s1 sn :
